@@ -38,6 +38,9 @@ def run(eng, rep) -> None:
     rep.rule("R08.2", "accumulated declaration lists are written only by their declaring callbacks and the import merge; the tree is fresh per transformer")
     rep.rule("R08.3", "Result children are attempted under @catch or tested; none stored raw or dropped; chained message names the struct")
     rep.rule("R08.4", "container callbacks build their type from the (unwrapped) inner child")
+    rep.rule("R08.7", "map_err callbacks extend the incoming error with results_in; none rebuilds it from a part of it")
+    rep.rule("R08.6", "the import callback merges the imported module whole, or a subset chosen by a walk that follows container element types")
+    rep.rule("R08.5", "an index of declared names consulted by the composed-type callback is written only by declaration/import callbacks (declared so far), never from a scan of the whole parse tree")
     rep.assume("lark Transformer visits children before parents, left to right (declare-before-use); VisitError wrapping is C11's concern")
     g = Grammar(prog)
     cbs = callbacks(eng, g)
@@ -148,6 +151,93 @@ def run(eng, rep) -> None:
             mixed = any("structs" in it and "enums" in it for it in iters) or any("get_types()" in it for it in iters)
             if mixed:
                 rep.violation("R08.1", f.file, f.qual, norm(n, 60), "reference kind is decided by %s, which searches structs and enums together by name only: an enum can be tagged as a struct (or vice versa)" % n.func.attr)
+    # ---- R08.5: an index of declared names kept by the transformer holds declarations seen so far ----
+    TREE_SCANS = {"find_data", "find_pred", "iter_subtrees", "iter_subtrees_topdown", "scan_values", "find_token"}
+    own = sorted({n.attr for n in ast.walk(f.node) if isinstance(n, ast.Attribute) and isinstance(n.value, ast.Name) and n.value.id == f.params[0].arg
+                  and n.attr != "fcp" and n.attr not in tcls.methods and isinstance(n.ctx, ast.Load)
+                  and any(isinstance(w, (ast.Assign, ast.AnnAssign)) and any(isinstance(t, ast.Attribute) and t.attr == n.attr for t in (w.targets if isinstance(w, ast.Assign) else [w.target]))
+                          and isinstance(w.value, (ast.Dict, ast.Set, ast.List, ast.Call)) for m_ in tcls.methods.values() for w in walk_local(m_.node))})
+    decl_cbs = {c.f.qual for r_, c in cbs.items() if r_ in ("struct", "enum", "mod_expr", "struct_field", "enum_field")}
+    for attr in own:
+        for m_ in tcls.methods.values():
+            for kind, tgt, st in stores_in(m_.node):
+                root = tgt.value if kind == "sub-store" else tgt
+                if not (isinstance(root, ast.Attribute) and root.attr == attr and isinstance(root.value, ast.Name) and root.value.id == m_.params[0].arg):
+                    continue
+                site = "self.%s <- %s" % (attr, norm(st, 70))
+                if kind == "attr-store" and isinstance(st.value, (ast.Dict, ast.Set, ast.List)) and not (st.value.keys if isinstance(st.value, ast.Dict) else st.value.elts):
+                    rep.ok("R08.5", m_.file, m_.qual, site, "starts empty")
+                    continue
+                scans = [c for c in walk_local(m_.node) if isinstance(c, ast.Call) and isinstance(c.func, ast.Attribute) and c.func.attr in TREE_SCANS]
+                if scans and m_.qual not in decl_cbs:
+                    rep.violation("R08.5", m_.file, m_.qual, site, "the index of declared names consulted by the composed-type callback is filled by scanning the parse tree (%s) outside the declaration callbacks: it contains declarations that come after the reference (and the enclosing struct itself), so forward and self references are accepted" % norm(scans[0], 50))
+                elif m_.qual in decl_cbs:
+                    rep.ok("R08.5", m_.file, m_.qual, site, "recorded by a declaration/import callback (children are transformed before parents, left to right)")
+                else:
+                    rep.undecided("R08.5", m_.file, m_.qual, site, "writer of the index is neither a declaration callback nor a tree scan")
+    # ---- R08.7: error mapping extends the incoming error, it does not rebuild it --------------------
+    n_me = 0
+    for m_ in tcls.methods.values():
+        for c in walk_local(m_.node):
+            if not (isinstance(c, ast.Call) and isinstance(c.func, ast.Attribute) and c.func.attr == "map_err" and len(c.args) == 1 and isinstance(c.args[0], ast.Lambda)):
+                continue
+            lam = c.args[0]
+            if len(lam.args.args) != 1:
+                continue
+            n_me += 1
+            p_ = lam.args.args[0].arg
+            e = lam.body
+            while isinstance(e, ast.Call) and isinstance(e.func, ast.Attribute) and e.func.attr == "results_in":
+                e = e.func.value
+            site = ".map_err(%s)" % norm(lam, 70)
+            if isinstance(e, ast.Name) and e.id == p_:
+                rep.ok("R08.7", m_.file, m_.qual, site, "the incoming error is extended (results_in): every enclosing context stays in the message")
+            elif isinstance(e, ast.Call) and any(isinstance(x, ast.Name) and x.id == p_ for x in ast.walk(e)):
+                rep.violation("R08.7", m_.file, m_.qual, site, "a new error is built from parts of the incoming one (%s): the contexts it carried - `Failed to parse field in struct X` among them - are discarded, so the reported error no longer names the enclosing struct" % norm(e, 50))
+            else:
+                rep.undecided("R08.7", m_.file, m_.qual, site, "form of the error mapping not recognised")
+    rep.ok("R08.7", "-", "-", "map_err sites of the transformer", "%d found" % n_me)
+    # ---- R08.6: what the import callback merges is the imported module, whole ------------------------
+    imp = cbs.get("mod_expr")
+    if imp is not None:
+        for c in walk_local(imp.f.node):
+            if not (isinstance(c, ast.Call) and isinstance(c.func, ast.Attribute) and c.func.attr == "merge" and c.args):
+                continue
+            e = c.args[0]
+            if isinstance(e, ast.Name):
+                from ..dataflow import deep_resolve
+                e = deep_resolve(imp.f.node, e)
+            derived = []
+            while isinstance(e, ast.Call) and isinstance(e.func, ast.Attribute):
+                if e.func.attr in ("map", "and_then", "bind") and e.args:
+                    derived.append(e.args[0])
+                e = e.func.value
+            for fn in derived:
+                body = fn.body if isinstance(fn, ast.Lambda) else fn
+                quals = set()
+                for cc_ in ast.walk(body):
+                    if isinstance(cc_, ast.Call) and isinstance(cc_.func, ast.Attribute):
+                        m2 = v2.methods.get(cc_.func.attr)
+                        if m2 is not None:
+                            quals.add(m2.qual)
+                    elif isinstance(cc_, ast.Call) and isinstance(cc_.func, ast.Name):
+                        r = prog.resolve_name(imp.f.module, imp.f, cc_.func.id)
+                        if r and r[0] == "func":
+                            quals.add(r[1])
+                reach = (set(eng.cg.reachable(sorted(quals))) | quals) if quals else set()
+                nodes = [body] + [prog.functions[q].node for q in reach if q in prog.functions]
+                filters = [x for nd in nodes for x in ast.walk(nd) if isinstance(x, ast.comprehension) and x.ifs and any(isinstance(a, ast.Attribute) and a.attr in ("structs", "enums") for a in ast.walk(x.iter))]
+                site = "merge(... .%s(%s))" % ("map", norm(fn, 60))
+                if not filters:
+                    rep.undecided("R08.6", imp.f.file, imp.f.qual, site, "the imported tree is transformed before it is merged; effect on the declarations not recognised")
+                    continue
+                unwraps = any(isinstance(a, ast.Attribute) and a.attr == "underlying_type" for nd in nodes for a in ast.walk(nd))
+                if not unwraps:
+                    rep.violation("R08.6", imp.f.file, imp.f.qual, site, "only a subset of the imported module's declarations is merged (%s) and the selection never looks inside array/optional wrappers (no use of underlying_type on the selection path): a declaration referenced only through a wrapper is dropped, leaving an accepted tree with a dangling reference" % norm(filters[0], 60))
+                else:
+                    rep.undecided("R08.6", imp.f.file, imp.f.qual, site, "a subset of the imported module is merged; closure of the subset under references is not decided")
+            if not derived:
+                rep.ok("R08.6", imp.f.file, imp.f.qual, norm(c, 60), "the nested parse result is merged as it is (only its error is mapped)")
     # no state shared between transformer instances
     for st in tcls.node.body:
         if isinstance(st, (ast.Assign, ast.AnnAssign)):
